@@ -18,7 +18,10 @@ for id in $ids; do
     out=$(VERIF_REPO=$WT ./check "$P" --tier quick 2>&1); rc=$?
     nv=$(echo "$out" | grep -c '^VIOLATION')
     how=$(echo "$out" | grep -E "failing input|proof_broken|corr .*disagree|no-failing-input-found" | head -2 | cut -c1-200 | tr '\n' '|')
-    if [ $rc -eq 1 ] && [ "$nv" -gt 0 ]; then echo "$id caught exit=$rc violations=$nv $how"; else echo "$id MISSED exit=$rc violations=$nv $how"; missed=$((missed+1)); fi
+    if [ $rc -eq 1 ] && [ "$nv" -gt 0 ]; then echo "$id caught exit=$rc violations=$nv $how";
+    elif grep -q '"note_after_repairs": "NEUTRALISED' "$HERE/seeded/$id/meta.json" 2>/dev/null; then
+      echo "$id neutralised by a later fix: commit (its demo passes on the repaired tree with the patch); check exit=$rc"
+    else echo "$id MISSED exit=$rc violations=$nv $how"; missed=$((missed+1)); fi
   fi
   git -C /repo worktree remove --force "$WT"
 done
